@@ -40,6 +40,8 @@ class UpdateProtocol:
         self.gate_seen = False
         self.exits = 0
         self.depth_loop = 0
+        self.helper_returns = None
+        self.inline_depth = 0
         # pre-pass: which children receive the raw local
         for n in walk(self.fn.body):
             if is_view_update(n) and len(n['args']) == 2:
@@ -202,8 +204,27 @@ class UpdateProtocol:
         if k == 'ret':
             if 'e' in n:
                 st = self.ev(n['e'], st)
+            if self.helper_returns is not None:
+                self.helper_returns.append(st.copy())   # returns to the caller inside update(), not out of update()
+                st.dead = True
+                return st
             self.exit(st, n, 'return')
             st.dead = True
+            return st
+        if k == 'try':
+            gate = self.is_gate_init(n['e'])
+            st = self.ev(n['e'], st)
+            if st.dead:
+                return st
+            ns = st.copy()
+            if gate:
+                self.gate_seen = True
+                ns.nonepath = True
+                st.gated = True
+            if self.helper_returns is not None:
+                self.helper_returns.append(ns)
+            else:
+                self.exit(ns, n, '?')
             return st
         if k in ('break', 'continue'):
             # only legal inside loops; the loop handler restores the state
@@ -233,6 +254,37 @@ class UpdateProtocol:
                 if c and st.counts.get(c, 0) == 0:
                     self.viol('R1b', c + ':last-before-update', 'child `%s`.last() is read before its update() on this path' % c, n)
                 return st
+            # a private helper of the same view called on self: analyse its body in place (the gate may live in there)
+            helper = None
+            if n.get('callee') and n['args'] and place(n['args'][0], self.sid) == ('self',):
+                for h in self.v.helpers:
+                    if h.defpath == n['callee']['def'] and self.inline_depth < 3:
+                        helper = h
+            if helper is not None:
+                saved = (self.sid, self.raw, self.helper_returns)
+                hid = self_id(helper)
+                new_raw = None
+                hparams = helper.param_ids()
+                for i, a in enumerate(n['args'][1:], start=1):
+                    a0 = strip(a)
+                    if a0.get('k') == 'local' and a0.get('id') == self.raw and i < len(hparams):
+                        new_raw = hparams[i][0]
+                self.sid, self.raw, self.helper_returns = hid, new_raw, []
+                self.inline_depth += 1
+                try:
+                    out = self.ev(helper.body, st.copy())
+                    rets = self.helper_returns
+                finally:
+                    self.inline_depth -= 1
+                    self.sid, self.raw, self.helper_returns = saved
+                res = None if out.dead else out
+                for r in rets:
+                    res = r if res is None else self.join(res, r, n)
+                if res is None:
+                    st.dead = True
+                    return st
+                res.dead = False
+                return res
             # any other call touching a child
             for i, a in enumerate(n['args']):
                 c = self.child_of(a)
@@ -629,15 +681,40 @@ def run_c01(F, R):
     for v in F.views:
         if not v.children_fields():
             continue
-        for f in F.fns_of(v.adt_path):
-            if f.derived or f is v.update or f is v.last:
-                continue
+        fns = [f for f in F.fns_of(v.adt_path) if not f.derived and f is not v.update and f is not v.last]
+        by_def = {f.defpath: f for f in fns}
+
+        def child_calls(f, sid):
+            # View::update / View::last applied to an inner view (a field of self, or a view passed in as an argument):
+            # calling the wrapper's own last() from a helper or a Display impl observes nothing new
+            out = []
+            for n in walk(f.body):
+                if (is_view_update(n) or is_view_last(n)) and n['args']:
+                    if place(n['args'][0], sid) == ('self',):
+                        continue
+                    out.append(n)
+            return out
+
+        def callees(f):
+            return [by_def[n['callee']['def']] for n in walk(f.body) if n.get('k') == 'call' and n.get('callee') and n['callee'].get('def') in by_def]
+        # entry points other than View::update/last: constructors, public inherent methods, other trait impls (Display, ..)
+        entries = [f for f in fns if f.vis.startswith('Public') or f.trait is not None or self_id(f) is None]
+        for f in entries:
             n_other += 1
-            bad = [n for n in walk(f.body) if is_view_update(n) or is_view_last(n)]
+            seen = set()
+            work = [f]
+            bad = []
+            while work:
+                g = work.pop()
+                if g.defpath in seen:
+                    continue
+                seen.add(g.defpath)
+                bad += [(g, n) for n in child_calls(g, self_id(g))]
+                work += callees(g)
             R.ob('R6', '%s::%s' % (v.name, f.name), not bad,
-                 'no View::update / View::last call outside the View impl' if not bad else
-                 '%s calls %s on a view at %s: the wrapper observes or drives its inner view outside update()/last()' % (
-                     f.name, callee_name(bad[0]), loc(bad[0])), loc(bad[0]) if bad else f.file)
+                 'no View::update / View::last call on an inner view outside the View impl' if not bad else
+                 '%s reaches a call of %s on an inner view at %s (in %s): the wrapper observes or drives its inner view outside update()/last()' % (
+                     f.name, callee_name(bad[0][1]), loc(bad[0][1]), bad[0][0].name), loc(bad[0][1]) if bad else f.file)
     # last() must not drive anything (it cannot through &self unless a child is cloned first)
     for v in F.views:
         if v.last is None:
